@@ -32,6 +32,11 @@ pub struct AdversaryKnobs {
     /// Shift each table's lookup running sums (partial SLDC polynomials) by a constant so that the
     /// final value is zero, i.e. start the sum from a non-zero value on the row after the table.
     pub sldc_shift: bool,
+    /// Like `sldc_shift`, but the constant enters the running sums at this row instead of the row
+    /// after the table: the partial SLDC values of the rows `last_lu_row ..= row` of the table whose
+    /// rows contain `row` are shifted so that the final value is zero. All transition constraints
+    /// except those evaluated on `row` still hold.
+    pub sldc_jump_row: Option<usize>,
 }
 
 const WORDS: usize = 8 + 3 * MAX_OVERRIDES;
@@ -46,6 +51,7 @@ const QPERT: u64 = 8;
 const POW: u64 = 16;
 const LENIENT: u64 = 32;
 const SLDC: u64 = 64;
+const SLDCJ: u64 = 128;
 const OVERRIDE0: u64 = 256;
 
 /// Install `k` (process-wide).
@@ -76,6 +82,10 @@ pub fn set(k: AdversaryKnobs) {
     }
     if k.sldc_shift {
         flags |= SLDC;
+    }
+    if let Some(r) = k.sldc_jump_row {
+        flags |= SLDCJ;
+        w[5] = r as u64;
     }
     for (j, o) in k.override_cells.iter().enumerate() {
         if let Some((r, c, v)) = o {
@@ -111,6 +121,7 @@ pub fn get() -> AdversaryKnobs {
         pow_witness_override: (f & POW != 0).then_some(w[4]),
         lenient_trim: f & LENIENT != 0,
         sldc_shift: f & SLDC != 0,
+        sldc_jump_row: (f & SLDCJ != 0).then_some(w[5] as usize),
         ..Default::default()
     };
     for j in 0..MAX_OVERRIDES {
